@@ -419,7 +419,7 @@ hyp_labels(const gspec_t *g, const char *hyp, int *lab, char *unknown, size_t nu
     return n;
 }
 
-static int LSCR_OK[64], NLSCR_OK;
+static int LSCR_OK[128], NLSCR_OK;
 static void
 allowed_lscr(const gspec_t *g)
 {
@@ -428,6 +428,28 @@ allowed_lscr(const gspec_t *g)
     NLSCR_OK = 0;
     for (i = 0; i < g->narcs; i++)
         LSCR_OK[NLSCR_OK++] = (int32)(logmath_log(D->lmath, g->prob[i]) * lw) >> SENSCR_SHIFT;
+    /* null arcs added by the closure carry the summed weight of the null path they stand for */
+    {
+        int eps[8][8], a, b, c;
+        for (a = 0; a < 8; a++)
+            for (b = 0; b < 8; b++)
+                eps[a][b] = 1;
+        for (i = 0; i < g->narcs; i++)
+            if (g->label[i] < 0 && g->from[i] < 8 && g->to[i] < 8) {
+                int lp = (int32)(logmath_log(D->lmath, g->prob[i]) * lw);
+                if (eps[g->from[i]][g->to[i]] > 0 || lp > eps[g->from[i]][g->to[i]])
+                    eps[g->from[i]][g->to[i]] = lp;
+            }
+        for (c = 0; c < g->n && c < 8; c++)
+            for (a = 0; a < g->n && a < 8; a++)
+                for (b = 0; b < g->n && b < 8; b++)
+                    if (eps[a][c] <= 0 && eps[c][b] <= 0 && (eps[a][b] > 0 || eps[a][c] + eps[c][b] > eps[a][b]))
+                        eps[a][b] = eps[a][c] + eps[c][b];
+        for (a = 0; a < g->n && a < 8; a++)
+            for (b = 0; b < g->n && b < 8; b++)
+                if (eps[a][b] <= 0 && NLSCR_OK < 60)
+                    LSCR_OK[NLSCR_OK++] = eps[a][b] >> SENSCR_SHIFT;
+    }
     LSCR_OK[NLSCR_OK++] = (int32)(logmath_log(D->lmath, config_float(D->config, "silprob")) * lw) >> SENSCR_SHIFT;
     LSCR_OK[NLSCR_OK++] = (int32)(logmath_log(D->lmath, config_float(D->config, "fillprob")) * lw) >> SENSCR_SHIFT;
 }
